@@ -280,7 +280,15 @@ func send(w *world, r Req, path string, body []byte, forceEmptyBody bool) map[st
 	if w.root != "" && fingerprint(w.root) != before {
 		mut = 1
 	}
-	return map[string]interface{}{"st": s.Code, "panic": s.Panic, "panicin": s.PanicIn, "mut": mut}
+	// a complete response: a multi-status answer carries a well-formed XML document (an answer that breaks off in the middle of
+	// its body, because encoding failed after the status line was out, is not one)
+	bodyok := true
+	if s.Code == 207 && !s.Panic {
+		if _, err := xmlt.Read(s.Body, nil); err != nil {
+			bodyok = false
+		}
+	}
+	return map[string]interface{}{"st": s.Code, "panic": s.Panic, "panicin": s.PanicIn, "mut": mut, "bodyok": bodyok}
 }
 
 func main() {
